@@ -85,6 +85,17 @@ func GenSpellingGroup(r *rand.Rand, p Profile) *spellingGroup {
 		// neighbour can take a token of the occurrence under test as its argument
 		inline := func() []string {
 			o2 := opts[r.Intn(len(opts))]
+			// the neighbour's name must resolve to that very option (a namesake in another group may
+			// take an argument and swallow the token under test)
+			n2 := 0
+			for _, o3 := range opts {
+				if o3.long == o2.long {
+					n2++
+				}
+			}
+			if n2 != 1 || (c.Opts&flags.HelpFlag != 0 && o2.long == "help") {
+				return nil
+			}
 			if isBoolCode(o2.code) {
 				if o2.long != "" && !strings.Contains(o2.long, "=") {
 					return []string{"--" + o2.long}
